@@ -19,7 +19,7 @@ type Syn struct {
 	Few bool
 }
 
-var synBare = []string{"a", "b", "c", "x1", "_y", "col", "T", "U", "where", "asc", "desc", "nulls", "first", "last", "kind", "on", "with",
+var synBare = []string{"a", "b", "c", "x1", "_y", "col", "T", "U", "set", "distinct", "contains", "has", "datetime", "away", "case", "where", "asc", "desc", "nulls", "first", "last", "kind", "on", "with",
 	"let", "count", "take", "top", "join", "project", "render", "as", "true", "false", "null", "inner", "$left", "$right", "sum", "f", "not", "iff",
 	// words that are enumerations or keywords in the Kusto dialect this language follows
 	"visible", "hidden", "linear", "log", "none", "axes", "panels", "stacked", "unstacked", "default", "innerunique", "leftouter", "limit", "filter", "order", "sort", "extend", "summarize",
